@@ -8,7 +8,7 @@ NSEG = 4 * (len(zg.QTYPES) + 2)
 
 def gen(rng, tier):
     quick = tier == "quick"
-    nzones = 150 if quick else 6000
+    nzones = 400 if quick else 8000
     for zi in range(nzones):
         apex, cls, recs = zg.gen_zone(rng)
         head = f"L {zg.nm(apex)} {cls} {';'.join(recs) if recs else '-'}"
@@ -62,7 +62,7 @@ CHECK = {
     "property": "C06",
     "props": "Props/C06.v",
     "theorems": ["c06_lookup_refines", "c06_lookup_addrs_refines", "c06_lookup_all_refines",
-                 "c06_build_total", "c06_unchecked_outside"],
+                 "c06_build_total", "c06_unchecked_outside", "c06_req_simple_transitive"],
     "allowed_axioms": [],
     "correspondence": {"impl_bin": "impl_zone", "extract": "Extract/ExZone.v", "driver": "run_zone.ml",
                        "runner_name": "zone"},
@@ -86,10 +86,10 @@ CHECK = {
         "tools/gen/zoneconsts.py re-extracts Type::{A,NS,CNAME,SOA,MX,AAAA}, Class::IN and Label::asterisk() from the source",
         "model abstractions (differentially tested, not proved): Name as list of labels, HashMap as association list under the "
         "case-insensitive label equality, RdataSetOwned as list of RDATAs, binary_search_by_key as ordered scan of the sorted Vec",
-        "Rdata::equals is a parameter of the model and the spec; theorems assume only that it is reflexive/symmetric/transitive "
+        "Rdata::equals is a parameter of the model and the spec; theorems assume only that it is transitive "
         "per (class,type); the runner instantiates it with req_simple (exact on the generated RDATA)",
     ],
-    "assumptions": ["Rdata::equals is an equivalence relation for every (class, type) (C19 is about that)",
+    "assumptions": ["Rdata::equals is transitive for every (class, type) (its being an equivalence is the subject of C19)",
                     "zones are built only by HashMapTreeZone::new and add",
                     "unchecked lookups are given names at or below the apex (caller contract of LookupOptions::unchecked); "
                     "the other case is characterised separately by c06_unchecked_outside"],
@@ -99,7 +99,7 @@ MANIFEST = {
     "level_text": ("Coq theorems (no axioms): for every add history, every name, type and option combination, lookup / "
                    "lookup_addrs / lookup_all of the model of HashMapTreeZone equal an independent RFC 1034 §4.3.2 / RFC 4592 "
                    "specification evaluated on the flat list of accepted records (names compared case-insensitively); the model "
-                   "is tied to the code by a differential run over ~26k names x 40 lookups per quick run, and the extracted "
+                   "is tied to the code by a differential run over ~70k names x 40 lookups per quick run, and the extracted "
                    "specification is evaluated on every implementation answer."),
     "level_note": ("Trusted: Coq kernel, extraction, the hand-written model's correspondence to the Rust code (differentially tested), "
                    "Rdata::equals taken as an abstract equivalence."),
